@@ -235,6 +235,12 @@ def cache_rules(run, db):
     for prm in keyf.params[1:]:
         run.check(prm in bare, 'C01.cache', keyf.qual, 'key component ' + prm, 'key contains %s' % prm,
                   'cache key omits the argument %s: two calls differing only in it share one cached basis' % prm, keyf.loc(rets[0]))
+    rebinds = [n for n in walk_no_nested(keyf.node) if (isinstance(n, ast.Assign) and any(isinstance(x, ast.Name) and x.id in keyf.params and isinstance(x.ctx, ast.Store) for t in n.targets for x in ast.walk(t)))
+               or (isinstance(n, ast.AugAssign) and isinstance(n.target, ast.Name) and n.target.id in keyf.params)]
+    lossy = [n for n in rebinds if any(isinstance(c, ast.Call) and ast.unparse(c.func).split('.')[-1] in ('round', 'around', 'rint', 'floor', 'ceil', 'int', 'trunc', 'float16', 'float32') for c in ast.walk(n))]
+    run.check(not lossy, 'C01.cache', keyf.qual, 'key values', 'the key holds the geometry as given (the bases are built from the key, so a rounded key is a rounded transform)',
+              '`%s` rounds/truncates an argument before it enters the key: the bases and the normalisation are built from the key, so the transform is computed for the rounded geometry '
+              '(Q = 4/3 becomes 1.3333: dft2 followed by idft2 no longer returns the input)' % (norm_stmt(lossy[0]) if lossy else ''), keyf.loc(lossy[0]) if lossy else keyf.loc(rets[0]))
     # global configuration read in the fill slice must be part of the key (or every writer clears the memo)
     cfg_reads = _attr_reads(fill.node, 'config')
     key_cfg = _attr_reads(keyf.node, 'config')
@@ -364,6 +370,11 @@ def fresh_rules(run, db, rule='C01.cache'):
         for st, w, o in sibling_alias_mutations(fi):
             run.finding(rule, fi.qual, norm_stmt(st), '`%s` updates `%s` in place, but `%s` may be the very same array as `%s` (bound by a plain name copy), which is used afterwards: '
                         'when that happens (e.g. a square plane) the shift of one axis is applied to the other axis as well' % (norm_stmt(st), w, w, o), fi.loc(st))
+    from .purity import memo_entry_writes
+    for cq in ('prysm.fttools.MatrixDFTExecutor', 'prysm.fttools.ChirpZTransformExecutor'):
+        for fi, st, nm, r in memo_entry_writes(db.cls(cq)):
+            run.finding(rule, fi.qual, norm_stmt(st), '`%s` writes into `%s`, which may be the stored memo entry %s taken out earlier: whatever an earlier call left in that entry (a larger input in the same '
+                        'work array, say) is still there, so the result depends on call history' % (norm_stmt(st), nm, r), fi.loc(st))
     from .purity import memo_completeness
     for fi, st, memo, missing in memo_completeness(db, mods):
         run.check(not missing, rule, fi.qual, 'memo %s' % memo, 'module-level memo %s is keyed by every input its fill reads' % memo,
